@@ -529,6 +529,9 @@ def r6_range_boundaries(repo, report):
         tests = [t.test for t in ast.walk(lp) if isinstance(t, (ast.While, ast.If))]
         cmp_ok = [t for t in tests if isinstance(t, ast.Compare) and len(t.ops) == 1 and isinstance(t.ops[0], (ast.Gt, ast.Lt)) and (
             (is_product_of(t.left, lp.target.id) and re.fullmatch(r"len\((\w+)\)", src(t.comparators[0]))) or (is_product_of(t.comparators[0], lp.target.id) and re.fullmatch(r"len\((\w+)\)", src(t.left))))]
+        if cmp_ok and not full:
+            scans.append({"loop": src(it), "test": src(cmp_ok[0]), "append": [], "ok": False, "range_problem": f"{src(it)} does not cover every length 1..{length}"})
+            continue
         if full and cmp_ok:
             t = cmp_ok[0]
             lst = re.fullmatch(r"len\((\w+)\)", src(t.comparators[0]) if is_product_of(t.left, lp.target.id) else src(t.left)).group(1)
@@ -544,7 +547,7 @@ def r6_range_boundaries(repo, report):
         ok = len(scans) == 1 and scans[0]["ok"] and not quotients
         report.ob("C20.R6", "ErrorRanges: range boundaries", ok, facts={"scan": scans[:1], "quotients": quotients[:1]}, loc=repo.loc(fn),
                   expected="for L in range(1, length + 1): while int(error_rate * L) > len(lengths): lengths.append(L - 1)",
-                  why="" if ok else "the scan over the lengths does not record L - 1 as the last length of the previous error count (or a quotient is mixed in)")
+                  why="" if ok else (scans[0].get("range_problem", "") + ": an increase of the allowed errors exactly at the full adapter length is not shown (10 nt at -e 0.1: '1-10 bp: 0' although one error is accepted at 10 bp)" if scans[0].get("range_problem") else "the scan over the lengths does not record L - 1 as the last length of the previous error count (or a quotient is mixed in)"))
     else:
         report.unrecognised("C20.R6", "ErrorRanges: range boundaries", "neither a scan over the lengths with int(error_rate * L) nor a quotient form", repo.loc(fn))
     # the adapter length closes the table
